@@ -528,17 +528,32 @@ func checkStatements(w *World, r *Result) {
 		fi := w.MustFunc(q)
 		info := fi.Pkg.TypesInfo
 		args := map[string]string{}
-		ast.Inspect(fi.Decl.Body, func(x ast.Node) bool {
-			if call, ok := x.(*ast.CallExpr); ok && len(call.Args) == 1 {
+		// the comparison builder is cc; the argument-list builder is recognised by its role (a function of the
+		// package taking the same []sql.Column and returning the names and the declarations, two strings); both may
+		// be called from a helper the two generators share
+		for _, cf := range calleeClosure(w, fi, 1) {
+			ast.Inspect(cf.Decl.Body, func(x ast.Node) bool {
+				call, ok := x.(*ast.CallExpr)
+				if !ok || len(call.Args) != 1 {
+					return true
+				}
+				fn := calleeOf(info, call)
+				if fn == nil || w.Funcs[fn] == nil || w.Funcs[fn].Pkg != fi.Pkg {
+					return true
+				}
+				if t := info.TypeOf(call.Args[0]); t == nil || !strings.HasSuffix(t.String(), "sql.Column") || !strings.HasPrefix(t.String(), "[]") {
+					return true
+				}
+				sig := fn.Type().(*types.Signature)
 				switch {
-				case strings.HasSuffix(fullName(calleeOf(info, call)), "sqlcrud.columnsComparison"):
+				case fn == cc.Obj:
 					args["cmp"] = es(call.Args[0])
-				case strings.HasSuffix(fullName(calleeOf(info, call)), ".columsVarDecls"):
+				case sig.Results().Len() == 2 && sig.Results().At(0).Type().String() == "string" && sig.Results().At(1).Type().String() == "string":
 					args["vars"] = es(call.Args[0])
 				}
-			}
-			return true
-		})
+				return true
+			})
+		}
 		r.cond(args["cmp"] != "" && args["cmp"] == args["vars"], "TPL-C05c", fi.Name, "WHERE clause and argument names from the same columns", fnPos(w, fi), "columnsComparison("+args["cmp"]+") and columsVarDecls("+args["vars"]+")", "the WHERE comparisons and the function's arguments are built from different column lists")
 	}
 	_ = constant.MakeBool
